@@ -389,6 +389,113 @@ def translate_cp(repo):
             "checks": checks, "shape_col": shape_col, "weights_exact": True, "flags": flags}
 
 
+def _same(node, template):
+    """the statement / expression equals the template (compared as ASTs)"""
+    t = ast.parse(template).body[0]
+    if isinstance(t, ast.Expr) and not isinstance(node, ast.Expr):
+        t = t.value
+    return ast.dump(node) == ast.dump(t)
+
+
+def translate_p2(repo):
+    """_validate_parafac2_tensor -> p2prog fields (structural recogniser)"""
+    path, fname = "tensorly/parafac2_tensor.py", "_validate_parafac2_tensor"
+    tree = ast.parse(open(os.path.join(repo, path)).read())
+    fns = [n for n in tree.body if isinstance(n, ast.FunctionDef) and n.name == fname]
+    if len(fns) != 1 or len(fns[0].args.args) != 1:
+        raise Untranslatable(f"{fname}: not found / not one positional argument")
+    fn = fns[0]; arg = fn.args.args[0].arg
+    body = list(fn.body)
+    if body and isinstance(body[0], ast.Expr) and isinstance(body[0].value, ast.Constant) and isinstance(body[0].value.value, str):
+        body = body[1:]
+    flags = {"wrapper_shortcut": False, "zero_order": False}
+    if body and isinstance(body[0], ast.If) and isinstance(body[0].test, ast.Call) and _name(body[0].test.func) == "isinstance":
+        tr = ChainTranslator.__new__(ChainTranslator); tr.aliases = {arg}; tr.wrapper_class = "Parafac2Tensor"; tr.flags = flags
+        tr._shortcuts(body[0]); body = body[1:]
+    def need(c, msg):
+        if not c:
+            raise Untranslatable(msg)
+    need(len(body) == 9, f"{len(body)} statements after the isinstance branch (9 expected)")
+    st = body[0]
+    need(isinstance(st, ast.Assign) and isinstance(st.targets[0], ast.Tuple) and len(st.targets[0].elts) == 3 and all(_name(e) for e in st.targets[0].elts)
+         and _name(st.value) == arg, "`weights, factors, projections = parafac2_tensor` expected")
+    weights, factors, projections = (e.id for e in st.targets[0].elts)
+    def raise_if(st_, what):
+        need(isinstance(st_, ast.If) and ChainTranslator._raises(st_.body) and not st_.orelse, what + ": `if <cond>: raise` expected")
+        return st_.test
+    t = raise_if(body[1], "number of factors")
+    need(isinstance(t, ast.Compare) and len(t.ops) == 1 and isinstance(t.ops[0], ast.NotEq) and _same(t.left, f"len({factors})") and _int(t.comparators[0]) is not None,
+         "`len(factors) != <int>` expected")
+    nf = _int(t.comparators[0])
+    t = raise_if(body[2], "number of projections")
+    need(_same(t, f"len({projections}) != {factors}[0].shape[0]"), "`len(projections) != factors[0].shape[0]` expected")
+    st = body[3]
+    need(isinstance(st, ast.Assign) and _name(st.targets[0]) and (_same(st.value, f"int(T.shape({factors}[0])[1])") or _same(st.value, f"T.shape({factors}[0])[1]")),
+         "`rank = int(T.shape(factors[0])[1])` expected")
+    rank = st.targets[0].id
+    st = body[4]
+    need(isinstance(st, ast.Assign) and _name(st.targets[0]) and isinstance(st.value, ast.List) and not st.value.elts, "`shape = []` expected")
+    shape_list = st.targets[0].id
+
+    def loop_head(loop, it_template, nbody):
+        need(isinstance(loop, ast.For) and isinstance(loop.target, ast.Tuple) and len(loop.target.elts) == 2 and all(_name(e) for e in loop.target.elts)
+             and not loop.orelse and len(loop.body) == nbody, f"loop with {nbody} statements expected")
+        return loop.target.elts[0].id, loop.target.elts[1].id
+
+    def unpack_and_check(loop, item):
+        b0, b1 = loop.body[0], loop.body[1]
+        need(isinstance(b0, ast.Assign) and isinstance(b0.targets[0], ast.Tuple) and all(_name(x) for x in b0.targets[0].elts) and _same(b0.value, f"T.shape({item})"),
+             "unpacking of T.shape(<loop variable>) expected")
+        vars_ = [x.id for x in b0.targets[0].elts]
+        tr_ = ChainTranslator.__new__(ChainTranslator)
+        tr_.aliases, tr_.nname, tr_.vars, tr_.index, tr_.factor = set(), None, vars_, loop.target.elts[0].id, item
+        base = tr_.exp
+        tr_.exp = lambda n: ("VRankVar",) if _name(n) == rank else base(n)
+        return vars_, [tr_.cond(raise_if(b1, "column check"))]
+
+    l1 = body[5]
+    idx, proj = loop_head(l1, None, 5)
+    need(_same(l1.iter, f"enumerate({projections})"), "`for i, projection in enumerate(projections)` expected")
+    pvars, pchecks = unpack_and_check(l1, proj)
+    b2, b3, b4 = l1.body[2], l1.body[3], l1.body[4]
+    need(isinstance(b2, ast.Assign) and _name(b2.targets[0]) and _same(b2.value, f"T.dot(T.transpose({proj}), {proj})"), "`inner_product = T.dot(T.transpose(P), P)` expected")
+    ip = b2.targets[0].id
+    t = raise_if(b3, "orthonormality test")
+    need(isinstance(t, ast.Compare) and len(t.ops) == 1 and isinstance(t.ops[0], ast.Gt)
+         and _same(t.left, f"T.max(T.abs({ip} - T.eye({rank}, **T.context({ip}))))") and isinstance(t.comparators[0], ast.Constant)
+         and isinstance(t.comparators[0].value, float) and 0 < t.comparators[0].value < 1, "`T.max(T.abs(P^T P - eye(rank))) > <threshold in (0,1)>` expected")
+    thr = t.comparators[0].value
+    need(isinstance(b4, ast.Expr) and isinstance(b4.value, ast.Call) and isinstance(b4.value.func, ast.Attribute) and b4.value.func.attr == "append"
+         and _name(b4.value.func.value) == shape_list and len(b4.value.args) == 1 and isinstance(b4.value.args[0], ast.Tuple) and len(b4.value.args[0].elts) == 2
+         and _name(b4.value.args[0].elts[0]) in pvars and isinstance(b4.value.args[0].elts[1], ast.Starred), "`shape.append((<var>, *[...]))` expected")
+    shape_col = pvars.index(b4.value.args[0].elts[0].id)
+    comp = b4.value.args[0].elts[1].value
+    need(isinstance(comp, ast.ListComp) and len(comp.generators) == 1 and not comp.generators[0].ifs and _name(comp.generators[0].target)
+         and _same(comp.elt, f"{comp.generators[0].target.id}.shape[0]") and isinstance(comp.generators[0].iter, ast.Subscript)
+         and _name(comp.generators[0].iter.value) == factors and isinstance(comp.generators[0].iter.slice, ast.Slice)
+         and comp.generators[0].iter.slice.upper is None and comp.generators[0].iter.slice.step is None and _int(comp.generators[0].iter.slice.lower) is not None,
+         "`*[f.shape[0] for f in factors[<int>:]]` expected")
+    tail_from = _int(comp.generators[0].iter.slice.lower)
+    l2 = body[6]
+    idx2, fac = loop_head(l2, None, 2)
+    it = l2.iter
+    need(isinstance(it, ast.Call) and _name(it.func) == "enumerate" and len(it.args) == 1 and isinstance(it.args[0], ast.Subscript) and _name(it.args[0].value) == factors
+         and isinstance(it.args[0].slice, ast.Slice) and it.args[0].slice.upper is None and it.args[0].slice.step is None and _int(it.args[0].slice.lower) is not None,
+         "`for i, factor in enumerate(factors[<int>:])` expected")
+    fac_from = _int(it.args[0].slice.lower)
+    fvars, fchecks = unpack_and_check(l2, fac)
+    t = raise_if(body[7], "weights")
+    need(_same(t, f"{weights} is not None and T.shape({weights})[0] != {rank}"), "`weights is not None and T.shape(weights)[0] != rank` expected")
+    need(_same(body[8], f"return tuple({shape_list}), {rank}"), "`return tuple(shape), rank` expected")
+    return {"nf": nf, "arity": len(pvars), "proj_checks": pchecks, "orth": True, "shape_col": shape_col, "tail_from": tail_from, "fac_from": fac_from,
+            "fac_arity": len(fvars), "fac_checks": fchecks, "weights_first": True, "threshold": thr, "flags": flags}
+
+
+def p2_lit(p):
+    return (f"(mk_p2prog {C.nat(p['nf'])} {C.nat(p['arity'])} [" + "; ".join(gal(c) for c in p["proj_checks"]) + f"] {C.boolc(p['orth'])} {C.nat(p['shape_col'])} "
+            f"{C.nat(p['tail_from'])} {C.nat(p['fac_from'])} {C.nat(p['fac_arity'])} [" + "; ".join(gal(c) for c in p["fac_checks"]) + f"] {C.boolc(p['weights_first'])})")
+
+
 def cp_lit(p):
     return (f"(mk_cpprog {C.nat(p['ra_ndim'])} {C.nat(p['ra_col'])} {C.nat(p['rb_ndim'])} {C.nat(p['rb_val'])} {C.nat(p['pad_len'])} {C.nat(p['pad_val'])} "
             f"{C.nat(p['arity'])} [" + "; ".join(gal(c) for c in p["checks"]) + f"] {C.nat(p['shape_col'])} {C.boolc(p['weights_exact'])})")
@@ -463,11 +570,11 @@ def record_ttm_equation(repo, n_cores):
 
 
 HEAD = """From Coq Require Import List Arith Bool. Import ListNotations.
-From TLV Require Import Base.Tensor Model.Factorized Model.FactorizedSrc Proofs.FactorizedProofs22.
+From TLV Require Import Base.Tensor Base.Ops Model.Factorized Model.FactorizedSrc Proofs.FactorizedProofs22.
 """
 
 
-def coq_source(progs, eqs, tk=None, cp=None):
+def coq_source(progs, eqs, tk=None, cp=None, p2=None):
     s = HEAD
     for key, p in progs.items():
         _, _, ref, val, _ = VALIDATORS[key]
@@ -485,6 +592,12 @@ def coq_source(progs, eqs, tk=None, cp=None):
         s += "Lemma cp_src_same : cp_prog_src = cp_prog. Proof. reflexivity. Qed.\n"
         s += ("Theorem cp_src_link : forall (F : Type) (w : option (tensor F)) (fs : list (tensor F)), run_cp cp_prog_src (option_map (@shape F) w) (map (@shape F) fs) = validate_cp w fs.\n"
               "Proof. intros F w fs. rewrite cp_src_same. apply cp_prog_link. Qed.\nPrint Assumptions cp_src_link.\n")
+    if p2 is not None:
+        s += f"Definition p2_prog_src : p2prog := {p2_lit(p2)}.\n"
+        s += "Lemma p2_src_same : p2_prog_src = p2_prog. Proof. reflexivity. Qed.\n"
+        s += ("Theorem p2_src_link : forall (F : Type) (Op : Base.Ops.fops F) (w : option (tensor F)) (fs ps : list (tensor F)),\n"
+              "  run_p2 p2_prog_src (option_map (@shape F) w) (map (@shape F) fs) (map (@shape F) ps) (fun r i => orthonormalb Op (nth i ps (mk [] [])) r) = validate_parafac2 Op w fs ps.\n"
+              "Proof. intros F Op w fs ps. rewrite p2_src_same. apply p2_prog_link. Qed.\nPrint Assumptions p2_src_link.\n")
     for n, (ops, out, order, _) in eqs.items():
         ol = "[" + "; ".join(C.nat_list(o) for o in ops) + "]"
         s += f"Example ttm_equation_{n} : ttm_equation_ok {C.nat(n)} {ol} {C.nat_list(out)} {C.nat_list(order)} = true. Proof. vm_compute. reflexivity. Qed.\n"
@@ -520,6 +633,14 @@ def run_static(chk, repo=None):
         chk.broken.append({"what": "corr:C03-src: _validate_cp_tensor is no longer of the shape the CP validator program transcribes", "detail": str(e)[:500]})
     except (OSError, SyntaxError) as e:
         chk.broken.append({"what": "corr:C03-src: source of _validate_cp_tensor not readable", "detail": f"{type(e).__name__}: {e}"[:300]})
+    p2 = None
+    try:
+        p2 = translate_p2(repo)
+        info["validators"]["p2"] = {"checks": len(p2["proj_checks"]) + len(p2["fac_checks"]) + 4, "threshold": p2["threshold"], **p2["flags"]}
+    except Untranslatable as e:
+        chk.broken.append({"what": "corr:C03-src: _validate_parafac2_tensor is no longer of the shape the PARAFAC2 validator program transcribes", "detail": str(e)[:500]})
+    except (OSError, SyntaxError) as e:
+        chk.broken.append({"what": "corr:C03-src: source of _validate_parafac2_tensor not readable", "detail": f"{type(e).__name__}: {e}"[:300]})
     for n in (1, 2, 3, 4, 5):
         try:
             eqs[n] = record_ttm_equation(repo, n)
@@ -532,13 +653,13 @@ def run_static(chk, repo=None):
     shutil.rmtree(d, ignore_errors=True); os.makedirs(d, exist_ok=True)
     fn = os.path.join(d, "SrcTie.v")
     with open(fn, "w") as f:
-        f.write(coq_source(progs, eqs, tk, cp))
+        f.write(coq_source(progs, eqs, tk, cp, p2))
     p = subprocess.run(["timeout", "600", "coqc", "-w", "none", "-R", os.path.join(C.COQ, "theories"), "TLV", fn], capture_output=True, text=True, cwd=d)
-    ok = p.returncode == 0 and "@@C03-SRC-OK" in p.stdout and p.stdout.count("Closed under the global context") == len(progs) + (1 if tk is not None else 0) + (1 if cp is not None else 0)
+    ok = p.returncode == 0 and "@@C03-SRC-OK" in p.stdout and p.stdout.count("Closed under the global context") == len(progs) + (1 if tk is not None else 0) + (1 if cp is not None else 0) + (1 if p2 is not None else 0)
     if not ok:
         chk.broken.append({"what": "corr:C03-src: a validator program regenerated from the source differs from the reference program of Model/FactorizedSrc.v "
                                    "(or the recorded einsum equation / transposition from ttm_equation / ttm_transposition)",
-                           "detail": {"programs": {k: prog_lit(v) for k, v in progs.items()}, "tucker": tk_lit(tk) if tk else None, "cp": cp_lit(cp) if cp else None, "equations": {k: v[3] for k, v in eqs.items()},
+                           "detail": {"programs": {k: prog_lit(v) for k, v in progs.items()}, "tucker": tk_lit(tk) if tk else None, "cp": cp_lit(cp) if cp else None, "p2": p2_lit(p2) if p2 else None, "equations": {k: v[3] for k, v in eqs.items()},
                                       "stderr": (p.stderr or p.stdout)[-1500:]}})
         info["status"] = "mismatch"
     else:
